@@ -332,7 +332,10 @@ def setup():
         print(msg)
         if not ok:
             return 1
-        ok, log = lake_build(["MafModel", "driver"])
+        d = os.path.join(LEAN_DIR, "MafModel", "Props")
+        props = sorted("MafModel.Props." + f[:-5] for f in os.listdir(d) if f.endswith(".lean"))
+        # every property's theorems are built here, so that a check only rebuilds what a source change invalidates
+        ok, log = lake_build(["MafModel", "driver"] + props)
         print(log[-3000:])
         return 0 if ok else 1
 
